@@ -14,7 +14,8 @@ LEVEL = "exploration"
 
 
 def run(ctx):
-    langs = core.run_cases(ctx, "harness.export", "export_locales", [{}], nproc=1)[0]["language_order"]
+    exported = core.run_cases(ctx, "harness.export", "export_locales", [{}], nproc=1)[0]
+    langs = exported["language_order"]
     findings, _ = core.load_findings("C06")
     known = {(f["signature"]["locale"], f["signature"]["phrase"]): f["id"] for f in findings}
     rep = core.replay_cases(ctx)
@@ -26,10 +27,14 @@ def run(ctx):
     else:
         counts = ["0", "1", "2", "3", "11", "45", "120", "1.5", "2,5"]
         bases = [[2021, 6, 15, 12, 0, 0, 0], [2021, 3, 31, 10, 30, 17, 0], [2020, 2, 29, 23, 59, 59, 0]]
-    reqs = [{"lang": L, "counts": counts, "bases": bases, "quick": ctx.quick()} for L in langs]
+    reqs = []
+    for L in langs:
+        tg = [L] + sorted(exported["langs"][L]["locales"])
+        for i in range(0, len(tg), 6):
+            reqs.append({"lang": L, "targets": tg[i:i + 6], "counts": counts, "bases": bases, "quick": ctx.quick()})
     res = core.run_cases(ctx, "harness.c05lib", "walk_relative", reqs, chunk=1)
     records, index = [], []
-    for L, recs in zip(langs, res):
+    for L, recs in zip([r["lang"] for r in reqs], res):
         for rec in recs:
             if "error" in rec:
                 continue
